@@ -59,6 +59,9 @@ def main():
                 print('   ', l[:200])
             if r.returncode == 2:
                 print((r.stdout + r.stderr)[-1500:])
+        keep = [a.split('=', 1)[1] for a in flags if a.startswith('--keep-replays=')]
+        if keep and os.path.isdir(os.path.join(vc, 'replays')):
+            shutil.copytree(os.path.join(vc, 'replays'), keep[0], dirs_exist_ok=True)
         return out
     finally:
         shutil.rmtree(vc, ignore_errors=True)
